@@ -110,6 +110,7 @@ type Exec struct {
 	cellCache map[*ssa.Alloc]bool
 	usedLemmas []string
 	curLemma    *Lemma
+	checkEval   map[*Clause]int
 	curLemmaEnv *Env
 	usedContracts map[string]bool
 	replay  *replayInfo
